@@ -24,6 +24,10 @@ Definition ekey_eq_dec : forall a b : ekey, {a = b} + {a <> b}.
 Proof. decide equality; try apply str_eq_dec; apply bool_dec. Defined.
 Definition entity_key_eq_dec : forall a b : entity_key, {a = b} + {a <> b}.
 Proof. decide equality; [apply ostr_eq_dec | decide equality; apply ekey_eq_dec]. Defined.
+Definition ts_rules_eq_dec : forall a b : ts_rules, {a = b} + {a <> b}.
+Proof. decide equality; try apply obool_eq_dec; apply oZ_eq_dec. Defined.
+Definition obj_rules_eq_dec : forall a b : obj_rules, {a = b} + {a <> b}.
+Proof. decide equality; apply oN_eq_dec. Defined.
 Definition olpay_eq_dec : forall a b : option lpay, {a = b} + {a <> b}.
 Proof. decide equality; apply lpay_eq_dec. Defined.
 Definition fty_eq_dec : forall a b : fty, {a = b} + {a <> b}.
@@ -32,7 +36,8 @@ Proof.
     try apply ostr_eq_dec; try (apply list_eq_dec; apply str_eq_dec);
     try (decide equality; first [apply int_rules_eq_dec | apply str_rules_eq_dec | apply len_rules_eq_dec
                                 | apply enum_rules_eq_dec | apply kfmt_eq_dec | apply entity_key_eq_dec
-                                | apply txt_rules_eq_dec | apply obool_eq_dec]).
+                                | apply txt_rules_eq_dec | apply obool_eq_dec
+                                | apply ts_rules_eq_dec | apply obj_rules_eq_dec]).
 Defined.
 Definition map_rules_eq_dec : forall a b : map_rules, {a = b} + {a <> b}.
 Proof. decide equality; apply oN_eq_dec. Defined.
@@ -56,29 +61,53 @@ Fixpoint list_eqb2 {A B} (f : A -> B -> bool) (a : list A) (b : list B) : bool :
   | _, _ => false
   end.
 
-(* the reader does not look at the field's presence (C12's business) *)
-Definition c04_proj (o : fout) : fout :=
-  FO (fo_json o) (fo_number o) (fo_kind o) (fo_rep o) (fo_opt o) false (fo_val o)
-     (fo_ext o) (fo_list o) (fo_key o) (fo_desc o).
-
 (* an object: environment, declared properties, the annotations emitted for
    them, and what the reflector read back (None: a reflected property the
    declaration language cannot express) *)
-Definition value3_eq_dec : forall a b : str * Z * str, {a = b} + {a <> b}.
-Proof. decide equality; [apply str_eq_dec | decide equality; [apply Z.eq_dec | apply str_eq_dec]]. Defined.
+Definition oinfo_eq_dec : forall a b : oinfo, {a = b} + {a <> b}.
+Proof. apply list_eq_dec. decide equality; apply str_eq_dec. Defined.
+Definition infofield_eq_dec : forall a b : infofield, {a = b} + {a <> b}.
+Proof. decide equality; [apply str_eq_dec | decide equality; apply str_eq_dec]. Defined.
+Definition value3_eq_dec : forall a b : str * Z * str * oinfo, {a = b} + {a <> b}.
+Proof.
+  decide equality; [apply oinfo_eq_dec|].
+  decide equality; [apply str_eq_dec | decide equality; [apply Z.eq_dec | apply str_eq_dec]].
+Defined.
 Definition enum_out_eq_dec : forall a b : enum_out, {a = b} + {a <> b}.
-Proof. decide equality; [apply list_eq_dec; apply value3_eq_dec | apply str_eq_dec]. Defined.
+Proof. decide equality; [apply list_eq_dec; apply infofield_eq_dec | apply list_eq_dec; apply value3_eq_dec | apply str_eq_dec]. Defined.
 Definition renum_eq_dec : forall a b : renum, {a = b} + {a <> b}.
-Proof. decide equality; try apply str_eq_dec; apply list_eq_dec; apply value3_eq_dec. Defined.
+Proof. decide equality; try apply str_eq_dec; apply list_eq_dec; first [apply value3_eq_dec | apply infofield_eq_dec]. Defined.
 
 Inductive c04case :=
 | C04Case (env : enum_env) (ds : list prop) (obs : list fout) (refl : outcome (list (option rprop)))
+          (same : list bool)   (* per property: the direct oracle found declared = reflected *)
 (* an enum: declaration, the compiled enum, the reflected enum schema *)
-| C04Enum (e : enum_decl) (obs : enum_out) (refl : outcome renum).
+| C04Enum (e : enum_decl) (obs : enum_out) (refl : outcome renum)
+(* the printed text: annotations of the in-memory fields, annotations of the
+   fields after print + parse, and whether the two reflected schemas were equal *)
+| C04Text (mem txt : list fout) (same_schema : bool).
+
+(* per property: is the reflected property the declared one (RulesRead.norm_prop)? *)
+Fixpoint declared_eq (env : enum_env) (idx : N) (ds : list prop) (rs : list (option rprop)) : list bool :=
+  match ds, rs with
+  | d :: dr, r :: rr =>
+      (match r with Some r => rprop_eqb (norm_prop env idx d) r | None => false end)
+      :: declared_eq env (idx + 1)%N dr rr
+  | _, _ => []
+  end.
 
 Definition c04_check (c : c04case) : bool :=
   match c with
-  | C04Case env ds obs refl =>
+  | C04Case env ds obs refl same =>
+      (* whether a property reads back as declared: the Go oracle's verdict (declared
+         vs reflected schema_j5pb values), the Coq specification norm_prop compared with
+         what the real reflector returned, and the fragment rt_ok the exactness theorem
+         predicts — all three coincide *)
+      match refl with
+      | Ok rs => list_eqb Bool.eqb (map rt_ok ds) same
+                 && list_eqb Bool.eqb (declared_eq env 0%N ds rs) same
+      | _ => true
+      end &&
       match write_object env ds with
       | Ok os => list_eqb (fun a b => fout_eqb (c04_proj a) (c04_proj b)) os obs
       | _ => false
@@ -90,6 +119,10 @@ Definition c04_check (c : c04case) : bool :=
       | Panic _, Panic _ => true
       | _, _ => false
       end
+  | C04Text mem txt same_schema =>
+      (* the text clause: where the reader's view of the fields is the same, the
+         reflected schemas are (C04_text_clause) *)
+      implb (list_eqb (fun a b => fout_eqb (c04_proj a) (c04_proj b)) mem txt) same_schema
   | C04Enum e obs refl =>
       (if enum_out_eq_dec (write_enum e) obs then true else false) &&
       match read_enum obs, refl with
